@@ -326,6 +326,12 @@ def check_primitives(prog):
             ok, c = r.fold(x.test.comparators[0])
             if ok and U(x.test.left) == lname:
                 guard = (type(x.test.ops[0]).__name__, c, x)
+            ok, c = r.fold(x.test.left)
+            if ok and U(x.test.comparators[0]) == lname:
+                # the limit on the left: 65535 < size
+                flip = {"Lt": "Gt", "LtE": "GtE", "Gt": "Lt", "GtE": "LtE"}.get(type(x.test.ops[0]).__name__)
+                if flip:
+                    guard = (flip, c, x)
     if guard is None:
         probs.append(Problem("S7", "encodeString", "overlong-guard", "no comparison of the encoded length with 65535 leads to a raise", r.node))
     else:
